@@ -836,3 +836,48 @@ mod test {
         assert_eq!(x, y);
     }
 }
+
+// Verification hook H3 (read-only, add-only): see page_store/verif/snapshot.rs
+#[cfg(redb_verif)]
+impl TableTree {
+    pub(crate) fn verif_root(&self) -> Option<BtreeHeader> {
+        self.tree.get_root()
+    }
+}
+
+#[cfg(redb_verif)]
+impl TableTreeMut {
+    pub(crate) fn verif_root(&self) -> Option<BtreeHeader> {
+        self.tree.get_root()
+    }
+
+    pub(crate) fn verif_pending_updates(&self) -> Vec<(String, Option<BtreeHeader>, u64, bool)> {
+        self.pending_table_updates
+            .iter()
+            .map(|(name, (root, length, dirty))| (name.clone(), *root, *length, *dirty))
+            .collect()
+    }
+
+    // Pages of the master tree, and every table definition with its staged root applied
+    pub(crate) fn verif_definitions(
+        &self,
+    ) -> Result<(Vec<PageNumber>, Vec<(String, InternalTableDefinition)>)> {
+        let mut master_pages = vec![];
+        self.tree.visit_all_pages(|path| {
+            master_pages.push(path.page_number());
+            Ok(())
+        })?;
+        let mut definitions = vec![];
+        for entry in self.tree.range::<RangeFull, &str>(&(..))? {
+            let entry = entry?;
+            let mut definition = entry.value();
+            if let Some((updated_root, updated_length, _)) =
+                self.pending_table_updates.get(entry.key())
+            {
+                definition.set_header(*updated_root, *updated_length);
+            }
+            definitions.push((entry.key().to_string(), definition));
+        }
+        Ok((master_pages, definitions))
+    }
+}
